@@ -592,6 +592,7 @@ def run_job(job):
             st["harness"].append({"seed": seed, "k": k, "detail": (res or ref).get("harness_error")})
             continue
         st["events"] += res.get("n_events", 0)
+        st.setdefault("evdigs", []).append(res.get("events_digest", "")[:16] + short(res.get("attempts"), 8))
         any_fired = False
         for a, r in zip(sc["attempts"], res["attempts"]):
             st["evals"] += r["n_evals"]
